@@ -1,6 +1,6 @@
 """C18 configuration for ./check"""
 CONF = {
-    'interesting': ['pre-growth', 'app-growth', 'clear-then-reuse', 'write-through-old-window', 'stack'],
+    'interesting': ['pre-growth', 'app-growth', 'clear-then-reuse', 'write-through-old-window', 'stack', 'other-buffer'],
     'rule': 'Op sequences over new/prepend/append/clear/push/write-through-window/SerializeLayers (real gopacket.SerializeLayers over harness-defined layers that prepend a header; stacks of 0..3 layers incl. the empty stack): exhaustive over 10 small ops to depth 4 (5 thorough) for 3 hint pairs, plus seeded random sequences (depth<=40 quick, <=200 thorough) over sizes {0,1,2,3,7,8,64,1500,70000} and hints {0,1,8,4096}; after every op Bytes(), returned window length, Layers() and panic flag are compared with the model, and the tape oracle checks written cells on the implementation.',
     'shrink_keep_first': 1,
     'coq_sample': 40,   # cases re-evaluated inside Coq by vm_compute against the extracted runner's output
